@@ -95,7 +95,7 @@ class Whole(Prop):
                "DateTimeClock, pipelines, lookup tables, results and per-simulant clocks are tied by C08/C10/C14/C15/C16, not here; "
                "termination of the index map's collision loop is a hypothesis (fuel), sizes with few reachable positions are not generated")
     trusted_extra = ["vcheck/wholekit.py: every float the probe components compute is exact (powers of two, sixteenths, integers)"]
-    n_quick = 64
+    n_quick = 56
     n_thorough = 900
     workers = 8
     case_timeout = 90
@@ -365,6 +365,28 @@ class Whole(Prop):
                     fail("position-moved", f"stage {k}: {pbs[k - 1]} -> {pos}")
             elif pos != list(range(len(pos))):
                 fail("positions-not-identity", f"stage {k}: {pos}")
+        # C04 on the real map: a simulant sits at the first hash of its key (salt = the clock of its creation) unless a
+        # simulant registered before it or with it holds that position
+        fh = obs.get("first_hashes")
+        if fh:
+            holder = {p_: (lab_, t_) for lab_, p_, f_, t_ in fh}
+            for lab_, p_, f_, t_ in fh:
+                if p_ != f_:
+                    h = holder.get(f_)
+                    if h is None or h[1] > t_:
+                        fail("position-not-first-hash", f"simulant {lab_} (created at {t_}) sits at {p_}, the first hash {f_} of its key "
+                                                        f"is {'free' if h is None else 'held by the later simulant ' + str(h[0])}")
+                        break
+        # mortality called before the machine (channel, priority, registration order): whoever leaves during a step has
+        # not been moved by the machine in that step
+        mpos = (cfg["mortPhase"], cfg["mortPrio"], cfg["order"].index(1))
+        dpos = (cfg["disPhase"], cfg["disPrio"], cfg["order"].index(2))
+        if mpos < dpos:
+            for k in range(1, len(tabs)):
+                for old, new in zip(tabs[k - 1], tabs[k]):
+                    if old[1] == 1 and new[1] == 0 and old[5] != new[5]:
+                        fail("left-but-moved", f"stage {k}: simulant {new[0]} left during the step (mortality is called before the "
+                                               f"machine) but its state changed {old[5]} -> {new[5]}")
         if size is not None and size != max(cfg["mapSize"], 10 * cfg["pop"]):
             fail("block-size", f"block size {size}, configured map_size {cfg['mapSize']}, population {cfg['pop']}")
         # run() = step() x n ; same configuration twice = same tables
